@@ -1805,6 +1805,15 @@ func DerefFunction(name string) ZlispUserFunction {
 				return SexpNull, WrongNargs
 			}
 
+			if _, isType := ptr.Target.(*RegisteredType); isType {
+				// A type is not a variable. Its *RegisteredType is shared
+				// by every interpreter of the process (the builtin types
+				// are package-level objects): copying another type over it
+				// would redefine int64, say, for all of them.
+				return SexpNull, fmt.Errorf("cannot assign to the type '%s' through a pointer",
+					ptr.Target.SexpString(nil))
+			}
+
 			// delegate as much as we can to the Go type system
 			// and reflection
 			rhs := reflect.ValueOf(args[1])
